@@ -76,6 +76,26 @@ theorem kth_delay_after_reset (d : Doubling) (hmax : d.max ≤ DURATION_MAX) (k 
   have := kth_delay d.min d.max hmax k (reset d) rfl rfl 0 (by simp [reset])
   simpa using this
 
+/-- **no wrap, however long the failure run**: the `i`-th (0-based) of `k` consecutive failures
+    after creation waits `min · 2^i` capped at `max` — for every `i < k`, with no bound on `k`
+    (no counter that could wrap is involved) -/
+theorem kth_delay_get (min max : Nat) (hmax : max ≤ DURATION_MAX) (k i : Nat) (hi : i < k) :
+    (failures (create min max) k)[i]? = some (Nat.min (min * 2 ^ i) max) := by
+  rw [kth_delay_created min max hmax k]
+  simp [hi]
+
+/-- … and once `min · 2^j` has reached the cap, every later delay IS the cap: the sequence never
+    falls back (in particular not after 256 or 65536 attempts) -/
+theorem delay_saturates (min max : Nat) (hmax : max ≤ DURATION_MAX) (j : Nat)
+    (hj : max ≤ min * 2 ^ j) (k i : Nat) (hji : j ≤ i) (hi : i < k) :
+    (failures (create min max) k)[i]? = some max := by
+  rw [kth_delay_get min max hmax k i hi]
+  have h1 : 2 ^ j ≤ 2 ^ i := Nat.pow_le_pow_right (by omega) hji
+  have h2 : min * 2 ^ j ≤ min * 2 ^ i := Nat.mul_le_mul_left _ h1
+  have h3 : max ≤ min * 2 ^ i := Nat.le_trans hj h2
+  congr 1
+  exact Nat.min_eq_right h3
+
 /-- after a lost connection the delay is `min`, whatever happened before -/
 theorem disconnect_is_min (d : Doubling) : afterDisconnect d = d.min := rfl
 
@@ -127,6 +147,14 @@ example : failures (create 1000000000 60000000000) 7 =
 /-- min > max: every delay is the cap -/
 example : failures (create 2000000000 1000000000) 3 = [1000000000, 1000000000, 1000000000] := by
   decide
+/-- a long failure run (1 ms / 8 ms, the `life` suite's long family): 1, 2, 4, then 8 for ever —
+    the 256th, the 400th and the 65537th delay are 8 -/
+example : (failures (create 1 8) 8).take 5 = [1, 2, 4, 8, 8] := by decide
+example : (failures (create 1 8) 400)[255]? = some 8 ∧ (failures (create 1 8) 400)[399]? = some 8 :=
+  ⟨delay_saturates 1 8 (by decide) 3 (by decide) 400 255 (by decide) (by decide),
+   delay_saturates 1 8 (by decide) 3 (by decide) 400 399 (by decide) (by decide)⟩
+example : (failures (create 1 8) 70000)[65536]? = some 8 :=
+  delay_saturates 1 8 (by decide) 3 (by decide) 70000 65536 (by decide) (by decide)
 example : run (create 5 40) [.failed, .failed, .disconnect, .failed, .reset, .failed] = [5, 10, 5, 20, 5] := by
   decide
 
